@@ -1,4 +1,6 @@
 import Tv.Lemmas.Weighted
+import Tv.Lemmas.Fdiff
+import Tv.Lemmas.Local
 import Tv.Model.MaskTable
 import Tv.Generated
 /-!
@@ -73,6 +75,35 @@ theorem tsFeat_exact (f : Feat) (sh : Shape) (xs : List (Option Rat)) (w : Nat) 
   · exact momRoll_exact _ _ (emitVar_spec _ (hk 2)) sh xs w hw
   · exact momRoll_exact _ _ (emitSkew_spec _ (hk 3)) sh xs w hw
   · exact momRoll_exact _ _ (emitKurt_spec _ (hk 4)) sh xs w hw
+
+/-- **fractional differencing, null-aware**: output `i` is `Σ_k (-1)^k C(d,k) x_(k)` over the
+non-null elements of the window, `x_(k)` the k-th most recent one (null below `min_periods`) -/
+theorem tsVfdiff_exact (sh : Shape) (d : Rat) (xs : List (Option Rat)) (w : Nat) (mp : Option Nat)
+    (hw : 1 ≤ w) :
+    tsVfdiff sh d xs w mp
+      = (List.range xs.length).map (fun i => Spec.tsVfdiff d (effMp mp w 0) (vwin xs i w)) := by
+  unfold tsVfdiff
+  rw [C02.customCalls_spec sh xs w hw, List.map_map]
+  apply List.map_congr_left
+  intro i _
+  have hm : effMp mp w 0 ≤ w := by unfold effMp; omega
+  exact vfdiffEmit_spec d w _ _ (window_length_le xs i w) hm
+
+/-- **fractional differencing, plain** (repaired warm-up alignment, finding F33) -/
+theorem tsFdiff_exact (sh : Shape) (d : Rat) (xs : List Rat) (w : Nat) (hw : 1 ≤ w) :
+    tsFdiff sh d xs w = (List.range xs.length).map (fun i => Spec.tsFdiff d (window xs i w)) := by
+  unfold tsFdiff
+  rw [C02.customCalls_spec sh xs w hw, List.map_map]
+  apply List.map_congr_left
+  intro i _
+  exact fdiffEmit_spec d w _ (window_length_le xs i w)
+
+/-- the generalized binomial of the model is the product formula `Π_{j<k} (d-j)/(j+1)` -/
+theorem gbinom_product (d : Rat) (k : Nat) : Tv.gbinom d k = Spec.gbinom d k := gbinom_eq d k
+
+/-- `fdiff_coef(d, w)` stores `(-1)^(w-1-j) C(d, w-1-j)` at position `j` -/
+theorem fdiffCoef_spec (d : Rat) (w : Nat) : fdiffCoef d w = (List.range w).reverse.map (fcoef d) :=
+  fdiffCoef_eq d w
 
 /-- one output per input element -/
 theorem tsFeat_length (f : Feat) (sh : Shape) (xs : List (Option Rat)) (w : Nat) (mp : Option Nat)
